@@ -58,7 +58,30 @@ def empty_location(interp, args, kwargs):
     return d["_empty_location"]
 
 
+def validate_alphabet(interp, args, kwargs):
+    """Sequence.validate_alphabet(sequence, alphabet): raises AlphabetError iff some character (upper-cased) is not in
+    alphabet.value.  Symbolic strings carry the set of characters they may contain (declared by the input builder);
+    concrete strings run the real body."""
+    from pyvc.values import SymStr, FuncVal
+    seq, alphabet = args[-2], args[-1]
+    if isinstance(seq, SymStr):
+        allowed = getattr(seq, "alphabet", None)
+        if allowed is None:
+            raise Unsupported("validate_alphabet on a symbolic string of unknown content")
+        a = interp.enum_concretize(alphabet)
+        if all(ch.upper() in a.value for ch in allowed):
+            return None
+        raise Unsupported("validate_alphabet: symbolic string may leave the alphabet")
+    f = interp.repo.find("sequence.sequence.Sequence.validate_alphabet")
+    saved = interp.summaries.pop("sequence.sequence.Sequence.validate_alphabet")
+    try:
+        return interp.call_function(FuncVal(f), list(args), kwargs)
+    finally:
+        interp.summaries["sequence.sequence.Sequence.validate_alphabet"] = saved
+
+
 SUMMARIES = {
+    "sequence.sequence.Sequence.validate_alphabet": validate_alphabet,
     "location.location_impl.EmptyLocation": empty_location,
     "parent.make_parent": make_parent,
     "gene.codon.Codon.__new__": codon_new,
@@ -116,6 +139,6 @@ EXTERNALS = {"Bio.Seq.Seq": bio_seq, "re.compile": _re_compile, "re.match": _re_
              "collections.defaultdict": _defaultdict}
 EXTERNAL_CONSTS = {"string.punctuation": _string.punctuation, "re.IGNORECASE": int(_re.IGNORECASE),
                    "re.I": int(_re.IGNORECASE)}
-DEFAULT = ["parent.make_parent", "location.location_impl.EmptyLocation", "gene.codon.Codon.__new__"]
+DEFAULT = ["sequence.sequence.Sequence.validate_alphabet", "parent.make_parent", "location.location_impl.EmptyLocation", "gene.codon.Codon.__new__"]
 LIB = {"default": DEFAULT, "summaries": SUMMARIES, "loops": LOOPS, "attr_hooks": {}, "externals": EXTERNALS,
        "external_consts": EXTERNAL_CONSTS}
